@@ -6,7 +6,7 @@ FLAG_POOL = ["\\Seen", "\\Flagged", "\\Answered", "\\Draft", "\\Deleted", "$Forw
 DEFAULT_WEIGHTS = {
     "append": 10, "store_del": 8, "store": 6, "uid_store": 4, "expunge": 6, "uid_expunge": 3, "copy": 5, "uid_copy": 3, "move": 4, "uid_move": 2,
     "noop": 8, "check": 3, "select": 4, "examine": 2, "close": 2, "unselect": 2, "idle": 3, "deliver": 5, "fetch": 4, "fetch_body": 3, "uid_fetch": 3,
-    "advance": 3, "observe": 0, "restart": 0, "create": 0, "delete": 0, "rename": 0, "rename_inbox": 0, "probe_pairs": 0, "search_flag": 0, "subscribe": 0, "deliver_stalled": 0, "leave": 2, "drop_midcmd": 1, "deliver_torn": 1,
+    "advance": 3, "observe": 0, "restart": 0, "create": 0, "delete": 0, "rename": 0, "rename_inbox": 0, "probe_pairs": 0, "search_flag": 0, "subscribe": 0, "deliver_stalled": 0, "leave": 2, "drop_midcmd": 1, "deliver_torn": 1, "deliver_fault": 1,
 }
 
 
@@ -113,7 +113,7 @@ async def step(w: World, rnd, weights, names, opts):
             return rnd.choice(ph) if ph and rnd.random() < 0.7 else "nosuch-box"
         return rnd.choice(sel_names)
 
-    if ss.idling and op not in ("deliver", "advance", "observe", "leave", "deliver_torn"):
+    if ss.idling and op not in ("deliver", "advance", "observe", "leave", "deliver_torn", "deliver_fault"):
         await w.op_done(ss)
         return "done"
     if op == "append":
@@ -179,6 +179,9 @@ async def step(w: World, rnd, weights, names, opts):
         await w.rig.advance(rnd.choice([6, 6, 21]))
         for s2 in w.sessions:
             s2.s.pump()
+    elif op == "deliver_fault":
+        nm = rnd.choice([x for x in sel_names if x in opts.get("deliver_to", sel_names)] or sel_names)
+        await w.deliver_then_fault(nm, rnd.choice([1, 1, 2]))
     elif op == "deliver_torn":
         nm = rnd.choice([x for x in sel_names if x in opts.get("deliver_to", sel_names)] or sel_names)
         await w.deliver_torn(nm, rnd.choice([2, 2, 3]))
